@@ -371,25 +371,31 @@ let () =
       let model = if verify_compat t s then "ok" else "panic:compat" in
       let verdict = if bindable t s && obs <> "ok" then "fail:compat_rejects_valid" else "ok" in
       emit id model verdict
-    | [id; "gotype"; _; sty; dmtext; obs] ->
-      let t = sty_of_string sty and d = dm_of_string dmtext in
+    | [id; "gotype"; _; level; sty; dmtext; obs] ->
+      let t = sty_of_string sty and d0 = dm_of_string dmtext in
+      let lv = if level = "T" then LType else LRepr in
+      (* level C: the tree arrives through the dag-cbor decoder, i.e. with its maps in key order *)
+      let d = if level = "C" then canon "cbor" d0 else d0 in
+      let same_view v = if level = "C" then
+          (try dm_eqb (sortd (dm_of_string v)) (sortd d0) with _ -> false)
+        else v = dmtext in
       let model =
         (match infer_gotype t with
          | Err e -> berr_str e
          | Ok s ->
-           (match asm !q LType narrow32 t s (zero_of s) false d with
-            | Ok g -> "ok:" ^ string_of_shape s ^ "|" ^ string_of_gv g ^ "|" ^ view_str (view !q LType t s g)
+           (match asm !q lv narrow32 t s (zero_of s) false d with
+            | Ok g -> "ok:" ^ string_of_shape s ^ "|" ^ string_of_gv g ^ "|" ^ view_str (view !q lv t s g)
             | Err e -> berr_str e)) in
       let verdict =
         (match infer_gotype t with
          | Err _ -> if starts_with "ok:" obs then "fail:gotype_build" else "ok"
          | Ok s ->
-           let fit = fits repaired LType narrow32 t s d in
+           let fit = fits repaired lv narrow32 t s d0 in
            if starts_with "ok:" obs then
              (match String.split_on_char '|' (after "ok:" obs) with
               | [_; _; view] ->
-                if view = dmtext then "ok" else
-                  (match asm repaired LType narrow32 t s (zero_of s) false d with
+                if same_view view then "ok" else
+                  (match asm repaired lv narrow32 t s (zero_of s) false d with
                    | Err XRange -> "fail:bind_int_narrowing"
                    | _ -> if fit then "fail:gotype_build" else "ok")
               | _ -> "fail:malformed_obs")
